@@ -13,7 +13,7 @@ from ..run import hyp_search, mix
 RULE = ('(a) name layer, enumerated completely: every element class x every schema child name and every schema '
         'attribute name (dot name derived from the ORACLE\'s name): unset read returns None, set-by-dot == explicit '
         'add_child / constructor keyword (same verdict, same text), read-back returns the stored child / value, '
-        '=None removes; undeclared names raise AttributeError on read and write.  (b) Hypothesis-drawn intent '
+        '=None removes, =None on an unset attribute (by dot and by constructor keyword) is a silent no-op; undeclared names raise AttributeError on read and write.  (b) Hypothesis-drawn intent '
         'sequences (child := value | instance | None, attribute := value | None, constructor keywords) executed '
         'once through the dot surface and once through add_child / replace_child / remove / value_ / constructor '
         'keywords; after every intent both elements must agree on exception-vs-success, exception type for child / '
@@ -94,6 +94,18 @@ def name_attr(el, q):
     r = call(getattr, a, dot)
     if not r.ok or r.value is not None:
         return F('unset-attribute-read-not-none', t, inp, r.etype if not r.ok else repr(r.value), None, r.site)
+    # =None on an attribute that is not set is the dictionary update attributes.pop(name, None): a silent no-op,
+    # by dot and by constructor keyword alike
+    r = call(setattr, a, dot, None)
+    if not r.ok or dict(a.attributes):
+        return F('attribute-none-on-unset-not-a-no-op', t, inp, r.verdict() if not r.ok else dict(a.attributes),
+                 site=r.site)
+    v0 = driver.stub_value(el)
+    a0 = (v0,) if (v0 is not None and s.content_kind(t) in ('simple', 'text')) else ()
+    r = call(cls_for(el), *a0, **{dot: None, 'xsd_check': False})
+    if not r.ok or dict(r.value.attributes):
+        return F('attribute-none-on-unset-not-a-no-op', t, dict(inp, via='keyword'),
+                 r.verdict() if not r.ok else dict(r.value.attributes), site=r.site)
     txt = a_decl['fixed'] or lexical.valid_texts(a_decl['type'])[0]
     ok, pv = lexical.python_value_for(a_decl['type'], txt)
     r1 = call(setattr, a, dot, pv)
@@ -197,6 +209,8 @@ def check_sequence(el, ctor_kw, intents):
     for i, it in enumerate(intents):
         r1 = apply_dot(a, it)
         if it[0] == 'attr':
+            if not r1.ok and it[2] is None:
+                return F('attribute-none-raised', t, inp, {'step': i, 'dot': r1.verdict()}, site=r1.site)
             if not r1.ok:
                 return None   # invalid attribute intent: surfaces not comparable by folding
             continue
